@@ -120,9 +120,42 @@ func (e *envT) install(t *testing.T, q *qos.SubscriberQoS, viaPolicy *radius.QoS
 	mgr.VerifSetMaps(e.k.Coll.Maps["qos_egress"], e.k.Coll.Maps["qos_ingress"], e.k.Coll.Maps["qos_stats_map"])
 	for _, pq := range prev {
 		// the subscriber had another policy before: the new one must replace it completely
-		steps = append(steps, fmt.Sprintf("SetSubscriberQoS(%+v)  [previous policy]", *pq))
-		if err := mgr.SetSubscriberQoS(pq); err != nil {
-			steps = append(steps, "error: "+err.Error())
+		switch {
+		case pq.PolicyName == "@redefine" && viaPolicy != nil:
+			// the same policy NAME was applied before with another definition; the operator then redefines it
+			old := &radius.QoSPolicy{Name: viaPolicy.Name, DownloadBPS: pq.DownloadBPS, UploadBPS: pq.UploadBPS, BurstSize: pq.BurstBytes, Priority: pq.Priority}
+			pm.AddPolicy(old)
+			steps = append(steps, fmt.Sprintf("AddPolicy(%+v); SetSubscriberPolicy(%v,%s)  [earlier definition of the same name]", *old, q.IP, old.Name))
+			if err := mgr.SetSubscriberPolicy(q.IP, old.Name); err != nil {
+				steps = append(steps, "error: "+err.Error())
+			}
+		case pq.PolicyName == "@override" && viaPolicy != nil:
+			// the policy was applied, then overridden with explicit rates under the same name; the final step restores it
+			pm.AddPolicy(viaPolicy)
+			ov := *pq
+			ov.PolicyName = viaPolicy.Name
+			steps = append(steps, fmt.Sprintf("AddPolicy(%+v); SetSubscriberPolicy(%v,%s); SetSubscriberQoS(%+v)  [override keeping the name]", *viaPolicy, q.IP, viaPolicy.Name, ov))
+			if err := mgr.SetSubscriberPolicy(q.IP, viaPolicy.Name); err != nil {
+				steps = append(steps, "error: "+err.Error())
+			}
+			if err := mgr.SetSubscriberQoS(&ov); err != nil {
+				steps = append(steps, "error: "+err.Error())
+			}
+		case pq.PolicyName == "@removed":
+			cp := *pq
+			cp.PolicyName = ""
+			steps = append(steps, fmt.Sprintf("SetSubscriberQoS(%+v); RemoveSubscriberQoS  [had a policy, removed]", cp))
+			mgr.SetSubscriberQoS(&cp)
+			mgr.RemoveSubscriberQoS(cp.IP)
+		default:
+			cp := *pq
+			if len(cp.PolicyName) > 0 && cp.PolicyName[0] == '@' {
+				cp.PolicyName = ""
+			}
+			steps = append(steps, fmt.Sprintf("SetSubscriberQoS(%+v)  [previous policy]", cp))
+			if err := mgr.SetSubscriberQoS(&cp); err != nil {
+				steps = append(steps, "error: "+err.Error())
+			}
 		}
 	}
 	if viaPolicy != nil {
@@ -257,12 +290,14 @@ func worker(t *testing.T, wid, workers int) {
 		}
 		q := &qos.SubscriberQoS{IP: subIP, DownloadBPS: dnBPS, UploadBPS: upBPS, BurstBytes: burst, Priority: uint8(rng.IntN(8)), PolicyName: "p"}
 		var pol *radius.QoSPolicy
-		if rng.IntN(3) == 0 {
+		if rng.IntN(2) == 0 {
 			pol = &radius.QoSPolicy{Name: "p", DownloadBPS: dnBPS, UploadBPS: upBPS, BurstSize: burst, Priority: q.Priority}
 		}
 		var prev []*qos.SubscriberQoS
-		if rng.IntN(3) == 0 {
-			prev = append(prev, &qos.SubscriberQoS{IP: subIP, DownloadBPS: 8000 * uint64(1+rng.IntN(1000)), UploadBPS: 8000 * uint64(1+rng.IntN(1000)), BurstBytes: uint32(1500 + rng.IntN(100000)), Priority: 1})
+		if rng.IntN(2) == 0 {
+			mode := []string{"", "@redefine", "@override", "@removed"}[rng.IntN(4)]
+			run.Count("previous_state_"+mode, 1)
+			prev = append(prev, &qos.SubscriberQoS{IP: subIP, DownloadBPS: 8000 * uint64(1+rng.IntN(1000)), UploadBPS: 8000 * uint64(1+rng.IntN(1000)), BurstBytes: uint32(1500 + rng.IntN(100000)), Priority: 1, PolicyName: mode})
 		}
 		egKey, inKey, steps := e.install(t, q, pol, prev...)
 		// what the control plane documents as the burst for this policy
